@@ -11,7 +11,7 @@
 From Coq Require Import List NArith Bool Arith.
 From GQ Require Import Lib.Key Model.C18 Proofs.C18_Base Proofs.C18_Ext Proofs.C18_Insert
   Proofs.C18_Delete Proofs.C18_History Proofs.C18_Merkle Proofs.C18_Derive Proofs.C18_Main
-  Proofs.C18_Copy.
+  Proofs.C18_Copy Proofs.C18_Range Proofs.C18_Db.
 Import ListNotations.
 
 (* (1) trie.go:insert never panics, keeps the canonical form, stores the value and leaves every
@@ -167,6 +167,84 @@ Print Assumptions handle_is_fresh_trie_of_its_content.
 (* ---------- non-vacuity ---------- *)
 (* the shape of the seeded change C18_1: two keys under an extension, a copy, the original deletes
    one of them (branch collapses, extension and leaf merge): the copy still is the two-key trie *)
+(* (7) range proofs (proof.go:VerifyRangeProof).  [strict_inc] is the verifier's monotonicity guard,
+   [range_ok t ps]: the list passed the guard and replaying it onto the trie changes nothing (the
+   root still matches).  Then every listed pair is held by the trie -- "no proof verifies for a
+   different value" for lists.  The correspondence check evaluates range_ok on every list the real
+   verifier accepted. *)
+Theorem range_guard_is_strict_order : forall ks,
+  strict_inc ks = true <-> Sorted.StronglySorted (fun a b => kltb a b = true) ks.
+Proof. intros ks; split; [apply strict_inc_sorted|apply sorted_strict_inc]. Qed.
+Print Assumptions range_guard_is_strict_order.
+
+Theorem range_guard_excludes_repeated_keys : forall ks, strict_inc ks = true -> NoDup ks.
+Proof. exact strict_inc_nodup. Qed.
+Print Assumptions range_guard_excludes_repeated_keys.
+
+Theorem range_strict_pairs_are_stored : forall t ps, Inv t -> wf_hist ps -> range_ok t ps = true ->
+  forall k v, In (k, v) ps -> get t k = v.
+Proof. exact range_pairs_stored. Qed.
+Print Assumptions range_strict_pairs_are_stored.
+
+(* the same statement with a NON-strict guard (sorted, equal neighbours allowed) is false: a foreign
+   pair (k, bogus) right before the honest (k, stored) is overwritten during the replay.  The
+   witness is replayed on the real verifier by the harness corpus (shape dup-adjacent-bogus-before),
+   which must reject it. *)
+Theorem range_nonstrict_refuted :
+  exists t ps, Inv t /\ wf_hist ps /\
+    Sorted.Sorted (fun a b => kleb a b = true) (map fst ps) /\
+    (match run t ps with Some t' => node_eqb t' t | None => false end) = true /\
+    exists k v, In (k, v) ps /\ get t k <> v.
+Proof. exact range_nonstrict_witness. Qed.
+Print Assumptions range_nonstrict_refuted.
+
+(* (8) trie.Database (database.go) at the granularity of roots held from the meta root: a root
+   stays openable (memory layer or disk) while its number of holders is positive, for every history
+   of Trie.Commit / Reference(root, {}) / Dereference(root) / Database.Commit(root) / Cap(0) /
+   reopening the database -- in particular when different histories commit the SAME root and each
+   of them holds it. *)
+Theorem held_root_stays_openable : forall ops r,
+  0 < hold (db_run true ops db0) r -> db_openable (db_run true ops db0) r = true.
+Proof. exact db_held_openable. Qed.
+Print Assumptions held_root_stays_openable.
+
+Theorem persisted_root_stays_openable : forall rd ops s r,
+  disk s r = true -> db_openable (db_run rd ops s) r = true.
+Proof. exact db_persisted_stays. Qed.
+Print Assumptions persisted_root_stays_openable.
+
+(* [hold] is the callers' count: +1 per Reference of an openable root, -1 per Dereference *)
+Theorem holders_are_references_minus_dereferences : forall rd s r,
+  (db_openable s r = true -> hold (db_ref rd s r) r = S (hold s r)) /\
+  hold (db_deref s r) r = hold s r - 1.
+Proof. intros rd s r. split; [apply db_hold_ref|apply db_hold_deref]. Qed.
+Print Assumptions holders_are_references_minus_dereferences.
+
+(* the exemption that lets the meta root reference one root several times is what the theorem rests
+   on: without it, two holders of the same root and one release lose the root *)
+Theorem meta_root_exemption_is_needed :
+  let ops := [DIns 0; DRef 0; DIns 0; DRef 0; DDeref 0] in
+  hold (db_run false ops db0) 0 = 1 /\ db_openable (db_run false ops db0) 0 = false /\
+  hold (db_run true ops db0) 0 = 1 /\ db_openable (db_run true ops db0) 0 = true.
+Proof. exact db_root_exemption_needed. Qed.
+Print Assumptions meta_root_exemption_is_needed.
+
+Example range_nonvacuous :
+  let t := match run Nil [([18;52], [1]); ([18;53], [2]); ([19;0], [3])]%N with Some t => t | None => Nil end in
+  range_ok t [([18;52], [1]); ([18;53], [2])]%N = true /\
+  range_ok t [([18;52], [1]); ([18;53], [9]); ([18;53], [2])]%N = false /\
+  range_ok t [([18;53], [2]); ([18;52], [1])]%N = false /\
+  range_ok t [([18;52], [1]); ([18;53], [7])]%N = false.
+Proof. vm_compute. repeat split; reflexivity. Qed.
+
+Example db_nonvacuous :
+  let s := db_run true [DIns 0; DRef 0; DIns 1; DRef 1; DDeref 0; DIns 1; DRef 1; DDeref 1; DFlush 1; DDeref 1; DReopen] db0 in
+  db_openable s 0 = false /\ db_openable s 1 = true /\ hold s 1 = 0 /\
+  db_crun db0 [DIns 0; DRef 0; DIns 0; DRef 0; DDeref 0; DObs 0 true; DDeref 0; DObs 0 false] = true /\
+  db_crun db0 [DIns 0; DRef 0; DIns 0; DRef 0; DDeref 0; DObs 0 true; DDeref 0; DObs 0 false] = true /\
+  db_crun db0 [DIns 0; DRef 0; DIns 0; DRef 0; DDeref 0; DObs 0 false] = false.
+Proof. vm_compute. repeat split; reflexivity. Qed.
+
 Example copy_nonvacuous :
   let ops := [MUpd 0 [18;52] [1]; MUpd 0 [21;103] [2]; MCopy 0; MUpd 0 [21;103] []; MUpd 1 [18;52] []]%N in
   wf_mops ops /\ in_range 1 ops = true /\
